@@ -491,7 +491,16 @@ def _second(g, T, rev, fset, sec, f0, viol, where, stats):
     if sec["share"] is not None and (k != "ok" or [rev.get(x, 999) for x in v][:len(sec["items"])] != sec["items"]):
         viol.append(f"second: {where}: the private prefix of the tail-sharing collection reads {_show(k, v, rev)}, "
                     f"it was {sec['items']}")
-    return f"L2={_show(k, v, rev)} N2={_show(k2, n, rev)} F2=" + (";".join(".".join(map(str, t)) for t in ft) or "-")
+    g2 = []
+    for i in (0, -1):
+        ki, vi = _call(lambda i=i: c2[i])
+        g2.append(_show(ki, vi, rev))
+        if sec["share"] is None and g2[-1] != str(sec["items"][i]):
+            viol.append(f"second: {where}: c2[{i}] of a disjoint second collection gives {g2[-1]}, it was {sec['items'][i]}")
+    if sec["share"] is None and (k2 != "ok" or n != len(sec["items"])):
+        viol.append(f"second: {where}: len of a disjoint second collection gives {_show(k2, n, rev)}")
+    return (f"L2={_show(k, v, rev)} N2={_show(k2, n, rev)} G2={';'.join(g2)} F2="
+            + (";".join(".".join(map(str, t)) for t in ft) or "-"))
 
 
 def _read_n3_list(txt):
